@@ -11,6 +11,7 @@ Only the public API of haiway is used, with one exception: the identity of the c
 """
 import asyncio
 import logging
+from typing import Any
 import os
 import random
 
@@ -43,8 +44,26 @@ warnings.filterwarnings("ignore", category=RuntimeWarning, message="coroutine .*
 sys.unraisablehook = _quiet_unraisable
 
 
+class _NoTruth:
+    """a value whose comparison has no truth value (an array-like): `a == b` is fine, `bool(a == b)` raises"""
+
+    class _Result:
+        def __bool__(self):
+            raise ValueError("the truth value of this comparison is ambiguous")
+
+    def __eq__(self, other):
+        return _NoTruth._Result()
+
+    __ne__ = __eq__
+    __hash__ = None
+
+
+NOTRUTH = _NoTruth()
+
+
 class A(State):
     v: int = 0
+    vec: Any = NOTRUTH      # states are never compared by the library on the user's behalf
     # an attribute that may be left out without having a "real" default: the type still needs no arguments
     note: str | Missing = MISSING
 
@@ -111,7 +130,13 @@ _SHARED = {}
 def mk(pairs):
     """state instances for (type, value) pairs - the SAME immutable instance every time a pair recurs, across scopes,
     tasks and runs (as module-level constants are used by applications): nothing may depend on instance identity"""
-    return [_SHARED.setdefault((t, v), TYPES[t](v=v)) for t, v in pairs]
+    return [_SHARED.get((t, v)) or _SHARED.setdefault((t, v), _make(TYPES[t], v)) for t, v in pairs]
+
+
+def _make(cls, v):
+    # (every instance has its OWN incomparable attribute value: identity shortcuts do not hide a comparison)
+    return cls(v=v, vec=_NoTruth()) if "vec" in getattr(cls, "__annotations__", {}) or any(
+        "vec" in getattr(b, "__annotations__", {}) for b in cls.__mro__) else cls(v=v)
 
 
 class _Capture(logging.Handler):
@@ -224,7 +249,7 @@ class World:
         self.root.addHandler(self.cap)
         self.root.setLevel(logging.DEBUG)
         # the caller's explicit default is an instance of a SUBCLASS of the requested type (a valid T all the same)
-        self.explicit = {t: _SUB[t](v=77) for t in TYPES}
+        self.explicit = {t: _make(_SUB[t], 77) for t in TYPES}
         self.nprobe = 0
 
     # ---- helpers used from inside tasks
